@@ -24,6 +24,10 @@ import (
 
 func init() { register(&Scenario{ID: "C15", Batch: true, Run: runC15}) }
 
+// c15Known: the endpoints declared in the policies file (set per run); the URL
+// tree of every delivery and of every restart is built from them.
+var c15Known sharedDiscovery.KnownEndpoints
+
 func c15Load(path string) (*discovery.Agg, error) {
 	b, err := os.ReadFile(path)
 	if err != nil {
@@ -57,7 +61,7 @@ func c15deliverF(dir, tag string, recs []common.AccessLog, d c15delivery, thresh
 	path := filepath.Join(dir, "discovery-"+tag+".json")
 	os.Remove(path)
 	newTree := func() (common.SimpleURLTreeI, error) {
-		return common.BuildTree(sharedDiscovery.KnownEndpoints{}, threshold)
+		return common.BuildTree(c15Known, threshold)
 	}
 	state := &discovery.State{DiscoverFilepath: path}
 	if err := state.InitializeState(); err != nil {
@@ -153,6 +157,21 @@ func runC15(s *kernel.Sim) {
 		defer func() { time.Local = old }()
 		s.Knobs["time_zone"] = time.Local.String()
 	}
+	// a third of the runs declare endpoints in the policies: a wildcard above the
+	// traffic, a path parameter where the traffic varies, or a few constants
+	c15Known = sharedDiscovery.KnownEndpoints{}
+	if tp.Chance(1, 3) {
+		menu := [][]sharedDiscovery.Endpoint{
+			{{Method: "GET", URL: "api.com/*"}},
+			{{Method: "GET", URL: "api.com/user/*"}},
+			{{Method: "GET", URL: "api.com/user/{id}/posts"}},
+			{{Method: "GET", URL: "api.com/item/1"}, {Method: "GET", URL: "api.com/item/2"}},
+			{{Method: "POST", URL: "api.com/*"}, {Method: "GET", URL: "api.com/item/{id}"}},
+		}
+		c15Known.Endpoints = menu[tp.Choose(len(menu))]
+		s.Knobs["known_endpoints"] = fmt.Sprint(c15Known.Endpoints)
+	}
+	defer func() { c15Known = sharedDiscovery.KnownEndpoints{} }()
 	threshold := tp.Range(2, 5)
 	n := tp.Range(5, 120)
 	nIDs := threshold + tp.Range(0, 4)
